@@ -113,6 +113,20 @@ CHECKS = {
              "set order: compared modulo that choice. Known finding C02-1 = C03-1/C01-1 (bundle re-binds a prefix).",
         technique="Lean 4 case-analysis proofs on the xsi:type decision + writer/reader/end-to-end differential correspondence",
         design="§4.C02"),
+    "C06": dict(
+        text="Lean: the PROV-N printer is transcribed character for character (Prov/ProvN.lean) and an independent reader is written "
+             "from the W3C grammar (Prov/ProvNSpec.lean: lexer with ECHAR, long/short string literals, %% typed literals, @lang, "
+             "INT_LITERAL, 'qname' literals; the 18 productions with optional identifier, '-' markers, mandatory/optional positions). "
+             "Theorems for arbitrary Unicode strings: the short literal printed for a string without LF/CR and the long literal printed "
+             "for any string lex back to exactly the original string and end at the printer's closing quotes (c06_short_string_roundtrip, "
+             "c06_long_string_roundtrip, escape_preserves_newlines); table obligations t6_provn_productions, t6_provn_first_mandatory. The "
+             "reader is executed on the real get_provn() text of every generated document and must recover the source's strict content; "
+             "the printer model is compared with the real text.",
+        note=A_COMMON + " Token-level theorem parse(print d) = abs d is not proved (covered by running the reader on real output). Known "
+             "findings C06-1 (= C03-1) and C06-2 (identified/attributed alternateOf, specializationOf, mentionOf, hadMember have no "
+             "production). Relations lacking a mandatory first argument are outside the domain (not expressible in PROV-N).",
+        technique="Lean 4 induction proofs on the string-literal lexical layer + Lean grammar reader run on real output",
+        design="§4.C06"),
     "C10": dict(
         text="An independent PROV-JSON reader written in Lean from the specification (Prov/JsonSpec.lean; own tables, own name resolution) "
              "is executed on the text the library really emits (all json option sets) and must recover the source's strict content. "
